@@ -3,7 +3,8 @@
 (* and an explicit list of further configurations (cfgs.ndjson, one JSON object per line: a   *)
 (* seeded sample of the whole family CfgOK drawn by the harness).                             *)
 EXTENDS PyImport
-CONSTANT Families
+CONSTANTS Families,
+          AssumeAll     \* also check the exhaustive families against CfgOK (thorough tier; it is sequential work)
 Three == {"import", "from", "star"}
 Five  == {"import", "import_as", "from", "from_as", "star"}
 CfgList == ndJsonDeserialize("cfgs.ndjson")
@@ -17,7 +18,7 @@ FamCfgs(f) == CASE f = "graph3"   -> GraphFamily(Three)
                 [] f = "flat3"    -> FlatFamily(3)
                 [] f = "raise"    -> RaiseFamily(Three)
                 [] f = "sample"   -> { CfgList[i] : i \in 1..Len(CfgList) }
-ASSUME \A f \in Families : \A c \in FamCfgs(f) : CfgOK(c)
+ASSUME \A f \in Families : (AssumeAll \/ f = "sample") => \A c \in FamCfgs(f) : CfgOK(c)
 Init == \E f \in Families : InitWith(f, FamCfgs(f))
 Spec == Init /\ [][Next]_vars
 =============================================================================
